@@ -60,6 +60,7 @@ def run(rep, tier):
     symmetry_stream(rep, r, 25 * scale)
     quadratic_edge_flips(rep, r, 20 * scale)
     quadratic_halfpixel_start(rep, r, 8 * scale)
+    quadratic_search_box(rep, r, 12 * scale)
     xpeak_stream(rep, r, 16 * scale)
 
 
@@ -402,6 +403,37 @@ def quadratic_edge_flips(rep, r, n):
             rep.violation(f'centroid-{bad[0]}:centroid_quadratic:edge', f'centroid_quadratic(fit_boxsize={fb}) on a source {d:.2f} px from the {edge} edge of a {ny} x {nx} frame: '
                           f'result {(float(x), float(y))}, on the x-flipped image {(float(fx), float(fy))}, y-flipped {(float(ux), float(uy))}, transposed '
                           f'(box swapped) {(float(tx), float(ty))}', {'image': img.tolist(), 'fit_boxsize': list(fb)})
+
+
+def quadratic_search_box(rep, r, n):
+    """(S) `search_boxsize`: the start pixel is the brightest pixel of the search box around (xpeak, ypeak) - also when that box is clipped at
+    the LEFT or BOTTOM edge of the array (its origin is then 0, not xpeak - half the box: seed C17-r12).  The result equals the call started
+    on that pixel directly, and commutes with both flips"""
+    from photutils.centroids import centroid_quadratic
+    for k in range(n):
+        ny, nx = r.randint(13, 17), r.randint(13, 17)
+        edge = ['left', 'bottom', 'right', 'top'][k % 4]
+        cx = {'left': r.uniform(2.6, 3.4), 'right': nx - 1 - r.uniform(2.6, 3.4)}.get(edge, r.uniform(5.5, nx - 6.5))
+        cy = {'bottom': r.uniform(2.6, 3.4), 'top': ny - 1 - r.uniform(2.6, 3.4)}.get(edge, r.uniform(5.5, ny - 6.5))
+        yy, xx = np.mgrid[0:ny, 0:nx]
+        img = 100 * np.exp(-0.5 * (((xx - cx) / 1.6) ** 2 + ((yy - cy) / 1.9) ** 2))
+        xp = {'left': round(cx) - 1, 'right': round(cx) + 1}.get(edge, round(cx) + r.choice([-1, 1]))
+        yp = {'bottom': round(cy) - 1, 'top': round(cy) + 1}.get(edge, round(cy) + r.choice([-1, 1]))
+        sb = r.choice([7, 5, (7, 5)])
+        with warnings.catch_warnings():
+            warnings.simplefilter('ignore')
+            a = centroid_quadratic(img, xpeak=xp, ypeak=yp, search_boxsize=sb, fit_boxsize=5)
+            ref = centroid_quadratic(img, xpeak=float(round(cx)), ypeak=float(round(cy)), fit_boxsize=5)
+            fx = centroid_quadratic(img[:, ::-1], xpeak=nx - 1 - xp, ypeak=yp, search_boxsize=sb, fit_boxsize=5)
+            fy = centroid_quadratic(img[::-1, :], xpeak=xp, ypeak=ny - 1 - yp, search_boxsize=sb, fit_boxsize=5)
+        rep.case(('quad-search', edge, img.tobytes()[:48], xp, yp), True, kind=f'quadratic-search-box:{edge}')
+        rep.probe_only += 1
+        ok = close(a[0], ref[0], 1e-9) and close(a[1], ref[1], 1e-9) and close(fx[0], nx - 1 - a[0], 1e-8) and close(fx[1], a[1], 1e-8) \
+            and close(fy[0], a[0], 1e-8) and close(fy[1], ny - 1 - a[1], 1e-8)
+        if not ok:
+            rep.violation('centroid-search-box:centroid_quadratic', f'Gaussian at {(cx, cy)} near the {edge} edge of a {ny} x {nx} array, start ({xp}, {yp}), search_boxsize={sb}: '
+                          f'result {tuple(map(float, a))}; started on the brightest pixel directly {tuple(map(float, ref))}; x-flipped {tuple(map(float, fx))}, '
+                          f'y-flipped {tuple(map(float, fy))}', {'image': img.tolist(), 'xpeak': xp, 'ypeak': yp, 'search_boxsize': list(sb) if isinstance(sb, tuple) else sb})
 
 
 def quadratic_halfpixel_start(rep, r, n):
